@@ -480,7 +480,7 @@ class Program:
         if f is not None:
             out.append(f)
             return out
-        if c.trait and c.path in self.trait_impls:
+        if c.trait and c.path in self.trait_impls and c.trait.split("::")[0] in WORKSPACE:
             # generic / dyn call through a workspace (or std) trait implemented in the workspace
             # only expand when unresolved to a concrete impl
             if c.callee.get("resolved") is None:
